@@ -53,6 +53,7 @@ import (
 	"iter"
 	"log/slog"
 	"net/http"
+	"slices"
 	"time"
 
 	"github.com/bartventer/httpcache/internal"
@@ -412,7 +413,10 @@ func (r *transport) handleStaleWhileRevalidate(
 	//
 	// Open a discussion at github.com/bartventer/httpcache/issues if your use case requires
 	// guaranteed completion.
-	go r.backgroundRevalidate(req2, stored, urlKey, freshness, ccReq)
+	//
+	// The response returned below belongs to the caller from now on: the goroutine gets
+	// the entry's ID and re-reads the entry instead of sharing the response object.
+	go r.backgroundRevalidate(req2, stored.ID, urlKey, freshness, ccReq)
 	internal.CacheStatusStale.ApplyTo(stored.Data.Header)
 	r.logger.LogCacheStaleRevalidate(req, urlKey, internal.MiscFunc(func() internal.Misc {
 		return internal.Misc{
@@ -424,9 +428,11 @@ func (r *transport) handleStaleWhileRevalidate(
 	return stored.Data, nil
 }
 
+var errStoredResponseChanged = errors.New("httpcache: stored response changed during revalidation")
+
 func (r *transport) backgroundRevalidate(
 	req *http.Request,
-	stored *internal.Response,
+	storedID string,
 	urlKey string,
 	freshness *internal.Freshness,
 	ccReq internal.CCRequestDirectives,
@@ -449,6 +455,32 @@ func (r *transport) backgroundRevalidate(
 			return
 		default:
 		}
+		// Work on a private copy of the stored entry and on the current index: the
+		// caller owns the response it was given, and other variants may have been
+		// stored for this URL in the meantime.
+		stored, err := r.cache.Get(storedID, req)
+		if err == nil && resp.StatusCode == http.StatusNotModified &&
+			(stored.Data.Header.Get("ETag") != req.Header.Get("If-None-Match") ||
+				stored.Data.Header.Get("Last-Modified") != req.Header.Get("If-Modified-Since")) {
+			err = errStoredResponseChanged // replaced since it was served; the 304 is not about it
+		}
+		if err != nil {
+			if resp.StatusCode == http.StatusNotModified {
+				errc <- err // nothing (left) to freshen
+				return
+			}
+			stored = &internal.Response{ID: storedID, Data: &http.Response{Header: make(http.Header)}}
+		}
+		refs, _ := r.cache.GetRefs(urlKey)
+		refIndex := slices.IndexFunc(refs, func(ref *internal.ResponseRef) bool {
+			return ref != nil && ref.ResponseID == storedID
+		})
+		if refIndex < 0 && resp.StatusCode == http.StatusNotModified {
+			// No longer indexed: the variant was replaced under another id while this
+			// validation was in flight; freshening would bring the replaced response back.
+			errc <- errStoredResponseChanged
+			return
+		}
 		revalCtx := internal.RevalidationContext{
 			URLKey:    urlKey,
 			Start:     start,
@@ -456,6 +488,8 @@ func (r *transport) backgroundRevalidate(
 			CCReq:     ccReq,
 			Stored:    stored,
 			Freshness: freshness,
+			Refs:      refs,
+			RefIndex:  refIndex,
 		}
 		//nolint:bodyclose // The response is not used, so we don't need to close it.
 		_, err = r.vrh.HandleValidationResponse(revalCtx, req, resp, nil)
